@@ -4,6 +4,7 @@ import (
 	"bufio"
 	"fmt"
 	"hash/fnv"
+	"os"
 	"reflect"
 	"strings"
 
@@ -35,7 +36,10 @@ func safePos(f func() token.Pos) string {
 }
 
 // dumpTree writes the generic-tree form of n with the implementation's own Pos(), End(), SQL() per node.
-func dumpTree(sb *strings.Builder, n ast.Node) {
+func dumpTree(sb *strings.Builder, n ast.Node) { dumpTreeStr(sb, n, nil) }
+
+// dumpTreeStr also collects the values of all string fields (for the non-printable rune list of the request).
+func dumpTreeStr(sb *strings.Builder, n ast.Node, strs *strings.Builder) {
 	v := reflect.ValueOf(n)
 	if v.Kind() == reflect.Ptr {
 		v = v.Elem()
@@ -66,6 +70,9 @@ func dumpTree(sb *strings.Builder, n ast.Node) {
 			scalars = append(scalars, fmt.Sprintf("I %s %d", f.Name, fv.Int()))
 		case f.Type.Kind() == reflect.String:
 			scalars = append(scalars, fmt.Sprintf("S %s %s", f.Name, hx(fv.String())))
+			if strs != nil {
+				strs.WriteString(fv.String())
+			}
 		case f.Type.Kind() == reflect.Slice && f.Type.Elem().Kind() == reflect.Uint8:
 			scalars = append(scalars, fmt.Sprintf("S %s %s", f.Name, hx(string(fv.Bytes()))))
 		case f.Type.Kind() == reflect.Slice && f.Type.Elem() == tokPtr:
@@ -93,7 +100,7 @@ func dumpTree(sb *strings.Builder, n ast.Node) {
 			idx = fmt.Sprint(k.index)
 		}
 		fmt.Fprintf(sb, " K %s %s ", k.field, idx)
-		dumpTree(sb, k.node)
+		dumpTreeStr(sb, k.node, strs)
 	}
 }
 
@@ -134,18 +141,23 @@ func walkEvents(n ast.Node, prune int) (string, bool) {
 	return strings.Join(log, " "), true
 }
 
-// treeLine is one TREE request: the dump of a parsed root with the implementation's values and its Walk event list.
+// treeLine is one TREE request: the dump of a parsed root with the implementation's values and its Walk event list,
+// and (like the QUOTE channel) the runes of the tree's string fields that unicode.IsPrint judges non-printable
+// (trailing `NP <hex>`, 4 bytes big-endian per rune): the Lean side builds its `isPrint` from it.
 func treeLine(n ast.Node, prune int) string {
-	var sb strings.Builder
-	dumpTree(&sb, n)
+	var sb, strs strings.Builder
+	dumpTreeStr(&sb, n, &strs)
 	ev, _ := walkEvents(n, prune)
-	return fmt.Sprintf("TREE %d %s W %s", prune, sb.String(), ev)
+	return fmt.Sprintf("TREE %d %s W %s NP %s", prune, sb.String(), ev, nonPrintable(strs.String()))
 }
 
 // treeServe echoes, from a TREE request, what the implementation computed (the Lean driver recomputes the same
 // canonical line from the regenerated tables).
 func treeServe(line string) string {
 	f := strings.Split(line, " ")
+	if len(f) >= 2 && f[len(f)-2] == "NP" { // the non-printable rune list is input for the model only
+		f = f[:len(f)-2]
+	}
 	var out []string
 	i := 2
 	var rec func()
@@ -185,6 +197,24 @@ func treeServe(line string) string {
 }
 
 func treeInputs(tier string, r *rng, each func(entry *entry, s string)) {
+	// ad-hoc tier `file=<path>`: one input per line, `<EntryPoint> <hex of the text>` (for experiments and replays)
+	if strings.HasPrefix(tier, "file=") {
+		b, err := os.ReadFile(strings.TrimPrefix(tier, "file="))
+		if err != nil {
+			fmt.Fprintln(os.Stderr, err)
+			os.Exit(2)
+		}
+		for _, l := range strings.Split(string(b), "\n") {
+			f := strings.Fields(l)
+			if len(f) != 2 || entryByName(f[0]) == nil {
+				continue
+			}
+			if t, ok := unhex(f[1]); ok {
+				each(entryByName(f[0]), string(t))
+			}
+		}
+		return
+	}
 	for _, cf := range corpusFiles() {
 		each(entryByName(entryForDir(cf.Dir)), cf.Text)
 	}
